@@ -23,7 +23,7 @@ Definition coll_ok (s : dma) (rc : coll) : Prop :=
 
 Definition done_ok (s : dma) (d : nat * copy) : Prop :=
   exists c0 ids, nth_error (g_acc s) (fst d) = Some (c0, ids) /\ same_cmd c0 (snd d) /\
-                 ids <> [] /\ incl ids (g_ans s).
+                 incl ids (g_ans s).
 
 Record Inv (s : dma) : Prop := {
   i_flow : g_retr s ++ cp_out s ++ to_cp s = map snd (g_done s);
@@ -272,8 +272,8 @@ Proof.
   - intros rc Hin. apply in_map_iff in Hin as (rc0 & <- & Hin0).
     destruct (dec_coll_fields (s_id q) rc0) as (_ & _ & E3). rewrite E3. auto.
   - assumption.
-  - eapply Forall_impl; [|exact Hdone]. intros d (c0 & ids & A & B & C & D).
-    exists c0, ids. cbn. split; [exact A|]. split; [exact B|]. split; [exact C|]. apply incl_appl. assumption.
+  - eapply Forall_impl; [|exact Hdone]. intros d (c0 & ids & A & B & D).
+    exists c0, ids. cbn. split; [exact A|]. split; [exact B|]. apply incl_appl. assumption.
   - rewrite map_length. assumption.
   - assumption.
   - assumption.
@@ -306,9 +306,9 @@ Qed.
 
 (** ** queueing a completion *)
 Lemma finish_inv s rc :
-  Inv s -> In rc (processing s) -> k_subs rc <> [] -> k_count rc = 0 -> Inv (finish s rc).
+  Inv s -> In rc (processing s) -> k_count rc = 0 -> Inv (finish s rc).
 Proof.
-  intros H Hin Hne Hz. inv_split H. unfold finish.
+  intros H Hin Hz. inv_split H. unfold finish.
   rewrite Forall_forall in Hcoll. destruct (Hcoll rc Hin) as (Hnd & Hfr & Hcnt & c0 & Hnth & Hsame).
   constructor; cbn.
   - rewrite map_app. cbn. rewrite <- Hflow. rewrite <- !app_assoc. reflexivity.
@@ -325,9 +325,9 @@ Proof.
       rewrite N.eqb_refl in Hne'. discriminate.
   - rewrite map_app. cbn. apply nodup_snoc; auto.
   - apply Forall_app. split.
-    + eapply Forall_impl; [|exact Hdone]. intros d (c1 & ids & A & B & C & D). exists c1, ids. cbn. auto.
+    + eapply Forall_impl; [|exact Hdone]. intros d (c1 & ids & A & B & D). exists c1, ids. cbn. auto.
     + constructor; [|constructor]. exists c0, (k_subs rc). cbn.
-      split; [assumption|]. split; [assumption|]. split; [assumption|].
+      split; [assumption|]. split; [assumption|].
       apply unans_nil_incl. lia.
   - unfold drop_processing. etransitivity; [apply filter_len_le|assumption].
   - assumption.
@@ -364,7 +364,6 @@ Proof.
     destruct (k_count rc =? 0) eqn:Ez; [|exact H2].
     cbn [fst]. apply finish_inv; auto.
     + cbn. apply (upd_last_in _ (fun x => set_sup x c')) in El. exact El.
-    + cbn. apply has_id_in in Hid. intros E. rewrite E in Hid. contradiction.
     + cbn. apply N.eqb_eq. assumption.
   - (* WriteDone *)
     destruct (find_pending (r_to r) (pending s0)) as [q|] eqn:Ef; [|apply crash_inv; exact H0].
@@ -375,8 +374,7 @@ Proof.
     destruct (k_count rc =? 0) eqn:Ez; [|exact H1].
     destruct (c_kind (k_sup rc)); try (apply crash_inv; exact H1).
     cbn [fst]. apply finish_inv; auto.
-    + apply has_id_in in Hid. intros E. rewrite E in Hid. contradiction.
-    + apply N.eqb_eq. assumption.
+    apply N.eqb_eq. assumption.
   - apply crash_inv. exact H0.
 Qed.
 
@@ -400,26 +398,13 @@ Proof. revert n. induction l; intros; cbn; auto. Qed.
 Lemma nth_error_snoc_old {A} (l : list A) x k v : nth_error l k = Some v -> nth_error (l ++ [x]) k = Some v.
 Proof. intros H. rewrite nth_error_app1; [assumption|]. apply nth_error_Some. congruence. Qed.
 
-Lemma parse_from_cp_inv s : Inv s -> Inv (fst (parse_from_cp s)).
+Lemma accept_inv s c rest l : Inv s -> (length (processing s) < maxreq s)%nat ->
+  Inv (accept_state s c rest l).
 Proof.
-  intros H. unfold parse_from_cp.
-  destruct (Nat.leb (maxreq s) (length (processing s))) eqn:Ecap; [exact H|].
-  apply Nat.leb_gt in Ecap.
-  destruct (cp_in s) as [|c rest] eqn:Ein; [exact H|].
-  assert (Hcr : Inv (s <| crashed := true |>)) by (apply crash_inv; exact H).
-  destruct (split_lines (lg s) (c_addr c) (len (c_data c))) as [l| |] eqn:Es;
-    [|destruct (c_kind c); exact Hcr|destruct (c_kind c); exact Hcr].
-  destruct (mk_subs_ids c (next_id s) l) as (Hlen & Hnd & Hrange).
+  intros H Ecap. destruct (mk_subs_ids c (next_id s) l) as (Hlen & Hnd & Hrange).
+  unfold accept_state, accept_coll, accept_subs. cbv zeta.
   set (subs := mk_subs c (next_id s) l) in *. set (ids := map s_id subs) in *.
   assert (Hslen : length subs = length ids) by (unfold ids; rewrite map_length; reflexivity).
-  assert (Hgoal : Inv (s <| cp_in := rest |>
-           <| processing := processing s ++ [mkColl c ids (N.of_nat (length ids)) (length (g_acc s))] |>
-           <| to_mem := to_mem s ++ subs |>
-           <| pending := pending s ++ subs |>
-           <| next_id := next_id s + N.of_nat (length subs) |>
-           <| g_acc := g_acc s ++ [(c, ids)] |>
-           <| g_sent := g_sent s ++ subs |>)).
-  2:{ destruct (c_kind c); [exact Hgoal|exact Hgoal|exact Hcr]. }
   inv_split H.
   assert (Hfresh : forall i, In i ids -> ~ In i (g_ans s)).
   { intros i Hi Ha. rewrite Forall_forall in Hrange, Hans. apply Hrange in Hi. apply Hans in Ha. lia. }
@@ -452,7 +437,7 @@ Proof.
     rewrite Forall_forall in Hdone. destruct (Hdone d Hd) as (c0 & ids0 & A & _).
     assert (fst d < length (g_acc s))%nat by (apply nth_error_Some; congruence). lia.
   - assumption.
-  - eapply Forall_impl; [|exact Hdone]. intros d (c0 & ids0 & A & B & C & D).
+  - eapply Forall_impl; [|exact Hdone]. intros d (c0 & ids0 & A & B & D).
     exists c0, ids0. cbn. split; [apply nth_error_snoc_old; exact A|auto].
   - rewrite app_length. cbn. lia.
   - rewrite map_app, concat_app. cbn. rewrite app_nil_r. apply nodup_app_intro; auto.
@@ -460,6 +445,26 @@ Proof.
   - rewrite map_app, concat_app. cbn. rewrite app_nil_r. apply Forall_app. split.
     + eapply Forall_impl; [|exact Haccfr]. cbn. intros; lia.
     + eapply Forall_impl; [|exact Hrange]. cbn. intros; lia.
+Qed.
+
+
+Lemma parse_from_cp_inv s : Inv s -> Inv (fst (parse_from_cp s)).
+Proof.
+  intros H. unfold parse_from_cp.
+  destruct (Nat.leb (maxreq s) (length (processing s))) eqn:Ecap; [exact H|].
+  apply Nat.leb_gt in Ecap.
+  destruct (cp_in s) as [|c rest] eqn:Ein; [exact H|].
+  assert (Hcr : Inv (s <| crashed := true |>)) by (apply crash_inv; exact H).
+  destruct (split_lines (lg s) (c_addr c) (len (c_data c))) as [l| |] eqn:Es;
+    [|destruct (c_kind c); exact Hcr|destruct (c_kind c); exact Hcr].
+  pose proof (accept_inv s c rest l H Ecap) as Hgoal.
+  assert (Hfin : Inv (fst (if k_count (accept_coll s c l) =? 0
+                           then (finish (accept_state s c rest l) (accept_coll s c l), true)
+                           else (accept_state s c rest l, true)))).
+  { destruct (k_count (accept_coll s c l) =? 0) eqn:Ez; [|exact Hgoal]. cbn [fst].
+    apply finish_inv; [exact Hgoal| |apply N.eqb_eq; exact Ez].
+    unfold accept_state. cbn. apply in_app_iff. right. left. reflexivity. }
+  destruct (c_kind c); [exact Hfin|exact Hfin|exact Hcr].
 Qed.
 
 (** ** ticks, steps, runs *)
@@ -520,7 +525,8 @@ Proof.
     + destruct (find_pending _ _); cbn; auto. destruct (last_match _ _); cbn; auto.
       destruct (k_count c =? 0); cbn; auto. destruct (c_kind (k_sup c)); cbn; auto.
   - intros z. unfold parse_from_cp. destruct (Nat.leb _ _); [auto|]. destruct (cp_in z); [auto|].
-    destruct (c_kind c); cbn; auto; destruct (split_lines _ _ _); cbn; auto.
+    destruct (c_kind c); cbn; auto; destruct (split_lines _ _ _); cbn; auto;
+      match goal with |- context [if ?b then _ else _] => destruct b; cbn; auto end.
 Qed.
 
 Lemma step_cfg s e : maxreq (fst (step s e)) = maxreq s /\ lg (fst (step s e)) = lg s.
